@@ -47,6 +47,11 @@ def mp_ref(reqs):
     return json.loads(p.stdout)
 
 
+def canon_or_other(v):
+    c = num_canon(v) if not isinstance(v, complex) else None
+    return c if c is not None else "other:" + type(v).__name__
+
+
 def frac_of(v):
     if isinstance(v, float):
         return Fraction(v) if math.isfinite(v) else None
@@ -155,7 +160,7 @@ def check(ctx):
                             refmeta.append((text, res))
             if k == "ok" and len(ctx.cov["samples"]) < 10 and rng.random() < 0.02:
                 ctx.sample(dict(text=text, result=repr(v)))
-            real = ("ok " + (num_canon(res) or "?") + ("|" + ",".join(map(str, x.qv.v.xs)) if isq else "")) if k == "ok" else "err " + v
+            real = ("ok " + canon_or_other(res) + ("|" + ",".join(map(str, x.qv.v.xs)) if isq else "")) if k == "ok" else "err " + v
             cases.append(("elem %s %s" % (fn, canon_operand(x)), real, text))
     # ---------------- log(x, base)
     for a in args[:40] + ["5!", "10^400"]:
@@ -187,7 +192,7 @@ def check(ctx):
                 ab = qb if isinstance(y, int) else Fraction(float(qb))
                 refreq.append(["log", [str(ax), str(ab)]])
                 refmeta.append((text, v))
-            real = "ok " + num_canon(v) if k == "ok" else "err " + v
+            real = "ok " + canon_or_other(v) if k == "ok" else "err " + v
             cases.append(("elem log %s %s" % (num_canon(x), num_canon(y)), real, text))
     # ---------------- x ^ y
     for a in args[:36]:
@@ -227,7 +232,7 @@ def check(ctx):
                     refmeta.append((text, v))
             elif v.startswith("py:"):
                 ctx.violation("elem-escape:" + text, text, "a value or a diagnosed error", v, how)
-            real = "ok " + num_canon(v) if k == "ok" else "err " + v
+            real = "ok " + canon_or_other(v) if k == "ok" else "err " + v
             cases.append(("elem pow %s %s" % (num_canon(x), num_canon(y)), real, text))
 
     def agree(real, model, info):
